@@ -73,7 +73,7 @@ def gen_case(rng):
         window = [True] * n
     schedule = [round(rng.uniform(-scale, scale), 2) for _ in range(n)] if rng.random() < 0.7 else None
     pl = None
-    prices = [round(rng.choice([0.05, 0.1, 0.3, 0.3]) * rng.choice([1, 1, 0.5]), 3) for _ in range(n)]
+    prices = [round(rng.choice([0.05, 0.1, 0.3, 0.3, -0.04]) * rng.choice([1, 1, 0.5]), 3) for _ in range(n)]      # negative prices occur
     if cc.startswith("variable"):
         pl = {}
         if rng.random() < 0.7:
